@@ -994,6 +994,21 @@ class ClsWorld(CoreWorld):
         self.set_global("core", "dir", Builtin("dir", lambda I, b: sorted(set(b.attrs) | set(b.inherited)) if isinstance(b, BaseCls) else []))
         self.set_global("core", "vars", Builtin("vars", lambda I, b: dict(b.attrs) if isinstance(b, BaseCls) else {}))
 
+        self.namespace = None  # the class body's namespace while a decorator of the body runs
+
+        def find_overload(I, args, kwargs):
+            """_find_overload (trusted: walks the interpreter stack): the function bound to fn.__name__ in the namespace of the
+            enclosing body, or a new Ovld"""
+            ns = self.namespace
+            cur = ns.d.get("perform") if ns is not None else None
+            if cur is None:
+                return self.new_ovld(I, **kwargs)
+            if kwargs:
+                raise PyRaise(ExcV("TypeError", tag="Cannot configure an overload that already exists"))
+            return cur.attrs.get("__ovld__", cur) if isinstance(cur, DispatchFn) else cur
+
+        self.contract("core:_find_overload", find_overload)
+
     def bootstrap(self, I, ov, name=None):
         d = DispatchFn(ov)
         d.attrs["__ovld__"] = ov  # core.py: dispatch.__ovld__ = ov
@@ -1048,7 +1063,7 @@ def t_cls_body(scenario):
             for f_ in fn.values():
                 f_.label = "fn:" + f_.label.split(":")[-1]
             bases, base_ovlds = [], []
-            if scenario in ("extend_one", "shadow"):
+            if scenario in ("extend_one", "shadow", "decorated_later_extend"):
                 B, ob = _class_with(w, I, "B", [fn["b1"], fn["b2"]])
                 bases, base_ovlds = [B], [ob]
             elif scenario == "extend_twice":
@@ -1089,6 +1104,16 @@ def t_cls_body(scenario):
                 elif scenario == "shadow":
                     d.py_setitem(I, "perform", fn["s1"])
                     want = None
+                elif scenario in ("decorated_later", "decorated_later_extend"):
+                    # @ovld def perform(s1) / @ovld(priority=10) def perform(s2): the second decorator finds the function already
+                    # bound to the name, registers on it and hands its user-facing function back to the namespace
+                    w.namespace = d
+                    first = I.call_repo("core:ovld", [fn["s1"]], {}) if scenario == "decorated_later" else I.call_repo("core:extend_super", [fn["s1"]], {})
+                    d.py_setitem(I, "perform", first)
+                    second = I.call_repo("core:ovld", [fn["s2"]], {"priority": 10})
+                    d.py_setitem(I, "perform", second)
+                    w.namespace = None
+                    want = ([fn["b1"], fn["b2"]] if scenario == "decorated_later_extend" else []) + [fn["s1"], fn["s2"]]
                 else:
                     marked = I.call_repo("core:extend_super", [fn["s1"]], {})
                     d.py_setitem(I, "perform", marked)
@@ -1108,6 +1133,10 @@ def t_cls_body(scenario):
                 I.require(ok, "namespace_entry_is_the_user_facing_function_of_one_overloaded_method")
                 if ok:
                     o = got.attrs["__ovld__"]
+                    own_mixin = any(m is o for m in o.f["mixins"])
+                    I.require(not own_mixin, "an_overloaded_method_is_never_its_own_mixin")
+                    if own_mixin:
+                        return
                     ms = method_set(o)
                     I.require(len(ms) == len(want) and all(a is b for a, b in zip(ms, want)), "method_set_is_inherited_methods_then_own_definitions")
                     I.require(not any(o is b for b in base_ovlds), "the_class_gets_its_own_overloaded_method_not_a_base_class_s")
@@ -1117,7 +1146,7 @@ def t_cls_body(scenario):
         return w, thunk, {"scenario": scenario}
 
     return build
-CLS_SCENARIOS = ("same_name", "extend_one", "extend_twice", "extend_two", "shadow", "prepare_two", "prepare_deep", "prepare_three")
+CLS_SCENARIOS = ("same_name", "extend_one", "extend_twice", "extend_two", "shadow", "prepare_two", "prepare_deep", "prepare_three", "decorated_later", "decorated_later_extend")
 
 
 def t_copy_variant(gname, op, linkback):
